@@ -264,6 +264,14 @@ ResolveInvs == Family = "resolve" =>
     /\ HostSNI /\ DestOK /\ NoSecondWellKnown /\ InvalidRefused /\ RefusedOnlyIf
     /\ InvalidDelegationNeverFollowed /\ NotHonouredNotFollowed /\ StepOrder /\ FedBeforeLegacy /\ SrvOnlyPlain
 
+\* the algorithm as a function (ResolveFn.tla, the oracle of ResolveSeq.tla) is the step machine
+Fn == INSTANCE ResolveFn
+FnWorld == [wk |-> [h \in {"S"} |-> [hon |-> Honoured(wk), target |-> wk.target]],
+            srv |-> [h \in {"S", "SU", "D", "DU", "Ddot"} |-> srv[DnsKey(h)]]]
+FnAgrees == Family = "resolve" /\ Done =>
+    /\ Fn!ResolveName(origin, FnWorld, lat) = [refused |-> refused, result |-> result]
+    /\ (Fn!AsksWellKnown(origin) <=> wkreqs # <<>>)
+
 Emit == Done =>
     IF Family = "cache"
     THEN PrintT(ToJson([fam |-> "cache", cache |-> cache,
